@@ -120,6 +120,7 @@ type wireEx struct {
 	HasBody    bool     // h2: HEADERS without END_STREAM; h3: at least one DATA frame
 	ReqChunks  [][]byte // non-empty DATA frame payloads
 	FinLast    bool     // h2: the last DATA frame with payload carried END_STREAM
+	Aborted    bool     // the client never ended the request stream (upload abandoned)
 	RespFields [][2]string
 	RespData   []byte
 }
@@ -470,7 +471,13 @@ func h23PartsOf(w wireEx, rs respSpec, method string, finalBody []byte, isFinal 
 	if w.HasBody {
 		p.HasReqBody = true
 		p.ReqBody = bytes.Join(w.ReqChunks, nil)
-		p.ReqBodySep = []byte("\r\n\r\n")
+		if !w.Aborted {
+			p.ReqBodySep = []byte("\r\n\r\n")
+		}
+	}
+	if w.RespFields == nil { // the stream was reset: no response at all
+		p.NoResp = true
+		return p
 	}
 	p.RespHeader = fieldLines(w.RespFields)
 	if isFinal {
@@ -495,11 +502,16 @@ type stack struct {
 	reg    func(id string, resps []respSpec, gate func(int))
 	hits   func(id string) int
 	take   func() []wireEx
+	gen    func(rng *hk.Rand) exSpec // default genExchange23
 }
 
 func pairs23(r *hk.Run, rng *hk.Rand, count int, st stack) {
 	for i := 0; i < count; i++ {
-		ex := genExchange23(rng)
+		gen := st.gen
+		if gen == nil {
+			gen = genExchange23
+		}
+		ex := gen(rng)
 		cfg := genCfg(rng, r)
 		if ex.Retry && cfg.Request != nil {
 			cfg.Request.Set[slotOut] = true // see h1Pairs
@@ -511,7 +523,7 @@ func pairs23(r *hk.Run, rng *hk.Rand, count int, st stack) {
 			if st.name == "h2" {
 				gate = wc.waitFor
 			}
-			st.reg(id, ex.Resps, gate)
+			st.reg(id, scriptResps(ex), gate)
 			st.take()
 			out := runClient(st.client(), st.url+ex.Path, ex, id, cfg, wc)
 			// let the origin finish recording the last response bytes
@@ -524,7 +536,7 @@ func pairs23(r *hk.Run, rng *hk.Rand, count int, st stack) {
 			id = fmt.Sprintf("%s-%d-%d", st.name, i, attempt)
 			off, wOff = run(nil)
 			on, wOn = run(&cfg)
-			if !envTrouble(off, on) {
+			if !envTrouble(ex, off, on) {
 				break
 			}
 			r.Count(st.name + ".retried-pair")
@@ -554,13 +566,22 @@ func pairs23(r *hk.Run, rng *hk.Rand, count int, st stack) {
 		var xs []partsObs
 		var coqX []string
 		pl := &pool{}
+		resps := scriptResps(ex)
 		for k, w := range wOn {
-			if k >= len(ex.Resps) {
+			if k >= len(resps) {
 				break
 			}
 			final := k == len(wOn)-1
-			p := h23PartsOf(w, ex.Resps[k], ex.Method, on.Res.Body, final, on.Res.Err)
+			method := ex.Method
+			if ex.Warm && k == 0 {
+				method, final = "GET", false
+			}
+			p := h23PartsOf(w, resps[k], method, on.Res.Body, final, on.Res.Err)
+			p.Warm = ex.Warm && k == 0
 			xs = append(xs, p)
+			if w.Aborted {
+				r.Count(fmt.Sprintf("%s.upload-abandoned(sent<body=%v)", st.name, len(p.ReqBody) < ex.BodyLen))
+			}
 			for _, c := range w.ReqChunks {
 				pl.add(c)
 			}
@@ -572,12 +593,12 @@ func pairs23(r *hk.Run, rng *hk.Rand, count int, st stack) {
 			}
 		}
 		for k, w := range wOn {
-			if k >= len(ex.Resps) {
+			if k >= len(resps) {
 				break
 			}
 			fin := ""
 			if st.ctor == "X2" {
-				fin = " " + hk.CoqBool(w.FinLast)
+				fin = " " + hk.CoqBool(w.FinLast) + " " + hk.CoqBool(w.Aborted)
 			}
 			coqX = append(coqX, fmt.Sprintf("%s %s %s%s %s %s", st.ctor, coqFields(w.ReqFields, pl), coqChunks(w.HasBody, w.ReqChunks, pl), fin, coqFields(w.RespFields, pl), coqReads(xs[k], pl)))
 		}
@@ -586,9 +607,7 @@ func pairs23(r *hk.Run, rng *hk.Rand, count int, st stack) {
 			failOnce(r, hk.Failure{Sig: "faithful:" + which + ":" + sigBase, What: "content of a dump writer is not exactly the selected parts routed to it", Input: in, Got: g, Want: w})
 		}
 		nt := cfg.anyOn() && (ex.BodyLen > 0 || ex.Resps[len(ex.Resps)-1].BodyLen > 0 || len(ex.Resps) > 1 || strings.Contains(ex.Shape, "longhdr"))
-		r.Add(hk.Case{Coq: pl.wrap(fmt.Sprintf("ExchCase %s %s %s %s", coqOptOpt(cfg.Client, 0), coqOptOpt(cfg.Request, 1), hk.CoqList(coqX), coqObs(on.Sink, pl))),
-			Desc: map[string]interface{}{"kind": st.name, "exchange": ex, "dump": cfg}},
-			st.name+"|"+keyOf(in), nt)
+		emitExch(r, cfg, coqX, ex.Warm, on.Sink, pl, map[string]interface{}{"kind": st.name, "exchange": ex, "dump": cfg}, st.name+"|"+keyOf(in), nt)
 	}
 }
 
